@@ -20,6 +20,8 @@ ASSUME = ['graph meaning = sum over paths in the free algebra, exact Fractions f
 
 
 def float_conv(c):
+    if isinstance(c, (complex, np.complexfloating)):
+        return complex(c) if c.imag != 0 else float(c.real)
     return float(c)
 
 
